@@ -30,6 +30,7 @@ impl PropDef {
 pub mod common;
 
 pub mod c01;
+pub mod c02;
 pub mod c03;
 pub mod c05;
 pub mod c06;
@@ -45,6 +46,7 @@ pub mod c20;
 pub fn get(id: &str) -> Option<PropDef> {
     match id {
         "C01" => Some(c01::def()),
+        "C02" => Some(c02::def()),
         "C03" => Some(c03::def()),
         "C05" => Some(c05::def()),
         "C06" => Some(c06::def()),
